@@ -137,6 +137,31 @@ class TermEval:
                 return bool(args[0])
             if leafname in ("array", "asarray"):
                 return Vec(args[0])
+            if leafname in ("set", "frozenset"):
+                return set(args[0]) if args else set()
+            if leafname == "sorted":
+                return sorted(args[0])
+            if leafname == "sum":
+                return sum(args[0])
+            if leafname == "diff":
+                xs = list(args[0])
+                return Vec(b - a for a, b in zip(xs[:-1], xs[1:]))
+            if leafname in ("equal", "not_equal", "less", "less_equal", "greater", "greater_equal"):
+                import operator
+                op = {"equal": operator.eq, "not_equal": operator.ne, "less": operator.lt, "less_equal": operator.le,
+                      "greater": operator.gt, "greater_equal": operator.ge}[leafname]
+                a, b = args[0], args[1]
+                la = list(a) if isinstance(a, (list, tuple)) else [a]
+                lb = list(b) if isinstance(b, (list, tuple)) else [b]
+                if len(la) != len(lb):
+                    # NumPy broadcasting of 1-d operands: a length-1 operand is stretched, anything else is an error
+                    if len(la) == 1:
+                        la = la * len(lb)
+                    elif len(lb) == 1:
+                        lb = lb * len(la)
+                    else:
+                        raise ValueError("operands could not be broadcast together")
+                return Vec(op(x, y) for x, y in zip(la, lb))
             if leafname == "searchsorted":
                 import bisect
                 side = "left"
